@@ -65,6 +65,10 @@ def generate(tier, seed):
             hi = aps[-1]
             c['rdtype'] = rng.choice(['float32', 'int'])
             c['req'] = [float(np.float32(x)) if c['rdtype'] == 'float32' else float(math.ceil(x)) for x in c['req']]
+            # a request meant to be ON the smallest aperture may round to just below it in single precision; the code accepts what
+            # equals the smallest aperture up to 1e-10 (F22), so whether 3e-11 below is "below" is not for this check to decide:
+            # such a request is moved to the next single-precision number above the aperture
+            c['req'] = [float(np.nextafter(np.float32(lo), np.float32(np.inf))) if lo * (1 - 1e-6) < x < lo else x for x in c['req']]
             c['below'] = any(x < lo for x in c['req'])
         if kind == 'conv' and k % 5 == 2:
             c['history'] = True
@@ -116,6 +120,15 @@ def generate(tier, seed):
             sh = list(fw)
             rng.shuffle(sh)
             c['forder'] = [c['fwav'].index(x) for x in sh]    # filters are not given in wavelength order
+        # requests drawn on a dyadic grid, or rounded to single precision, can land a hair below the smallest aperture of the final
+        # table: within 1e-6 they are put ON it (whether 1e-11 below is "below" is a matter of the code's 1e-10 tolerance, F22, not
+        # of this check); anything further below is a request that must be refused
+        lo_f = c['aps'][0]
+        key = 'fap' if kind == 'var' else 'req'
+        if not c.get('rdtype'):
+            c[key] = [lo_f if lo_f * (1 - 1e-6) < x < lo_f else x for x in c[key]]
+        if len(c['aps']) > 1 and any(x < lo_f for x in c[key]):
+            c['below'] = True
         cases.append(c)
     return cases
 
